@@ -21,7 +21,8 @@ RULE = ("volumes: cylinders and boxes with dimensions log-uniform over 10..1e4 m
         "side / box edges}; whole create_event calls with energies 1e3..1e12 GeV, both interaction models, both Earth "
         "models, shadow on/off, flavour ratios and both sources, secondaries on/off; shadowed generators fed by a "
         "counting, non-constant energy callable at energies where throws are rejected; list generators of 0..6 events "
-        "with random create/set-count/query histories; a case is non-trivial when a direction is not degenerate / a "
+        "with random create/set-count/query histories (also as an oracle against the reference position/offset "
+        "machine); one generator object reused for particles of both signs at equal and different energies; a case is non-trivial when a direction is not degenerate / a "
         "draw decides a branch; distinct = distinct request lines")
 LEVEL_TEXT = ("theorems over R: radius inverse-CDF law, z/azimuth/box affine laws, unit direction, flavour threshold "
               "intervals, box exit points on the boundary / collinear / bracketing the vertex (slab method incl. "
@@ -622,6 +623,74 @@ def check_list(run, n, loop, k):
                        expected=want, what="list generator does not cycle/stop/count as configured")
 
 
+def check_list_history(run, n, loop, ops):
+    """create_event interleaved with assignments to `.count` and reads of it, against the reference
+    "the position in the list advances by one per successful throw; `count` = throws + an offset that only the
+    setter changes; the offset never influences which event comes next or when the list stops" """
+    g = G()
+    import pyrex.particle as pp
+    evs = [pp.Event(base_particle((0, 0, -i - 1), (0, 0, 1))) for i in range(n)]
+    gen = g.ListGenerator(list(evs), loop=loop)
+    pos, offset = 0, 0          # reference state
+    got, want = [], []
+    for op in ops:
+        if op == "c":
+            if not loop and pos >= n:
+                want.append("stop")
+            else:
+                want.append(str(pos % n))
+                pos += 1
+            try:
+                e = gen.create_event()
+                got.append(str([id(x) for x in evs].index(id(e))))
+            except StopIteration:
+                got.append("stop")
+        elif op == "q":
+            want.append("q%d" % (pos + offset))
+            got.append("q%d" % gen.count)
+        else:
+            c = int(op[1:])
+            offset = c - pos
+            gen.count = c
+            want.append("ok"); got.append("ok")
+        if got[-1] != want[-1]:
+            k = len(got)
+            run.fail_input("list-history", {"n": n, "loop": loop, "ops": list(ops[:k])}, observed=got, expected=want,
+                           what="list generator: after `%s` the %s differs from the reference (position advances one per "
+                                "throw, count offset kept separately)" % (" ".join(ops[:k]), "returned event / stop" if op == "c" else "count"))
+            return
+
+
+def check_weights_reuse(run, vol, model, earth_name, calls):
+    """ONE generator object asked for the weights of many particles (same and different energies, neutrinos and
+    antineutrinos, all flavours): every answer must equal the answer of a fresh generator and the independent formula.
+    `calls` = [(particle type name, energy, vertex, direction)]"""
+    import pyrex.particle as pp
+    cls = c14.model_cls(model)
+    mk = lambda: make_gen(vol, 1e9, interaction_model=cls, earth_model=earths()[earth_name])
+    gen = mk()
+    for k, (tname, E, v, d) in enumerate(calls):
+        with Tape(run.rng):
+            p = pp.Particle(tname, v, d, E, interaction_model=cls, interaction_type="cc")
+        try:
+            w = [float(x) for x in gen.get_weights(p)]
+            wf = [float(x) for x in mk().get_weights(p)]
+        except ValueError:
+            continue
+        L = float(p.interaction.total_interaction_length)
+        vv, u = np.array(p.vertex, float), np.array(p.direction, float)
+        lo, hi = true_chord(vol, vv, u)
+        Lice = L / 0.92 / 100
+        ref = [math.exp(-float(earths()[earth_name].slant_depth(vv, -u)) / L), (hi - lo) / Lice * math.exp(lo / Lice)]
+        if not (fw.all_close(w, wf, 1e-12, 0.0) and fw.close(w[0], ref[0], 1e-9, 0.0) and fw.close(w[1], ref[1], 1e-6, 0.0)):
+            run.fail_input("weights-reuse", {"volume": list(vol), "model": model, "earth": earth_name,
+                                             "calls": [[t, e, list(a), list(b)] for t, e, a, b in calls[:k + 1]]},
+                           observed={"reused_generator": w, "fresh_generator": wf, "formula": ref, "call": k},
+                           what="weights from a generator object that has been used before differ from those of a fresh "
+                                "generator / from exp(-X/L), (l/L_ice)exp(-t/L_ice) with the particle's own length")
+            return
+
+
 def ks_stat(xs):
     xs = np.sort(np.asarray(xs))
     n = len(xs)
@@ -653,6 +722,29 @@ def check_distributions(run, n):
 def search(run, deep):
     rng = run.rng
     mult = 10 if deep else 1
+    # --- state kept across calls (checked first so that their self-contained histories get replay slots)
+    # histories with assignments to `.count` and reads interleaved
+    for i in range(60 * mult):
+        n, loop = rng.randint(1, 6), rng.random() < 0.5
+        ops = [rng.choice(["c", "c", "c", "q", "s%d" % rng.choice([0, 1, n - 1, n, n + 1, 2 * n + 1, rng.randint(0, 40)])])
+               for _ in range(rng.randint(3, 25))]
+        run.case(("oracle-list-history", n, loop, tuple(ops)))
+        run.count("oracle_list_history_sets", sum(1 for o in ops if o[0] == "s"))
+        check_list_history(run, n, loop, ops)
+    # one generator object reused: same energy with both nu / nubar, several energies, all flavours
+    for i in range(12 * mult):
+        vol = draw_volume(rng)
+        model, en = rng.choice(["gqrs", "ctw", "ctw"]), rng.choice(["prem", "cmc"])
+        es = [10 ** rng.uniform(3, 12) for _ in range(2)]
+        calls = []
+        for k in range(rng.randint(4, 8)):
+            v = inside_vertex(rng, vol)
+            d = [rng.gauss(0, 1) for _ in range(3)]
+            calls.append((rng.choice([t[0] for t in c14.TYPES]), rng.choice(es), v, d))
+        # make sure both signs occur at one energy
+        calls[1] = (("nu_mu_bar" if "bar" not in calls[0][0] else "nu_mu"), calls[0][1], calls[1][2], calls[1][3])
+        run.case(("oracle-weights-reuse", vol, model, en, len(calls)))
+        check_weights_reuse(run, vol, model, en, calls)
     for i in range(60 * mult):
         vol = draw_volume(rng)
         run.case(("oracle-samplers", vol))
@@ -707,6 +799,11 @@ def replay(run, data):
         check_exit_inputs(run, tuple(i["volume"]), i["vertex"], i["direction"])
     elif k == "list":
         check_list(run, i["n"], i["loop"], i["calls"])
+    elif k == "list-history":
+        check_list_history(run, i["n"], i["loop"], i["ops"])
+    elif k == "weights-reuse":
+        check_weights_reuse(run, tuple(i["volume"]), i["model"], i["earth"],
+                            [(t, e, a, b) for t, e, a, b in i["calls"]])
     elif k == "fresh-draws":
         cfg = dict(i["config"])
         cfg["vol"] = tuple(cfg["vol"]); cfg["ratio"] = tuple(cfg["ratio"]); cfg["E"] = i["energies"][0]
